@@ -406,7 +406,8 @@ def scenarios(R, dumps, tier):
         n = rng.choice((2, 2, 3))
         cap = n
         pg = rng.sample(P, 2 * n + 3)
-        ops = [(0, "str %d %d %s" % (MACHPHYS, pg[0] * PS + 10 * variant, dd.expect_str(pg[0] * PS + 10 * variant)))]
+        soff = (7 * variant) % 190                    # the string of every page ends at offset 200
+        ops = [(0, "str %d %d %s" % (MACHPHYS, pg[0] * PS + soff, dd.expect_str(pg[0] * PS + soff)))]
         for t in range(1, n):
             ops += [(t, rd(dd, p)) for p in pg[1 + 3 * (t - 1):4 + 3 * (t - 1)]]
         ops.append((0, rd(dd, pg[0])))
